@@ -375,7 +375,9 @@ fn case_rule(seed: u64) {
 fn case_transform(seed: u64) {
     let mut rng = Rng::new(seed);
     let config: RouterConfig = serde_json::from_value(config_json(&mut rng)).unwrap_or_default();
-    let captures = ["abc", "a", "", "caf\u{e9}", "\u{65e5}\u{672c}\u{8a9e}", "\u{1f355}x", "x\u{e9}y\u{e9}z", "Hello World", "a-b_c", "fr", "fr-ca", "x", "y", "zab"];
+    // (among them captured texts that spell a marker reference, also the marker's own: a value is data, it is never
+    // expanded again)
+    let captures = ["abc", "a", "", "caf\u{e9}", "\u{65e5}\u{672c}\u{8a9e}", "\u{1f355}x", "x\u{e9}y\u{e9}z", "Hello World", "a-b_c", "fr", "fr-ca", "x", "y", "zab", "x@m", "@h@k@m", "$1@k"];
     // marker expressions that bring their own groups: optional / alternative named groups that do not take part
     // in every match, and an unbalanced expression that still yields a valid overall pattern
     let marker_regexes = [".+?", ".+?", ".+?", "[a-z]{2}(?P<region>-[a-z]{2})?", "(?P<a>x)|(?P<b>y)", "x)?(y", "(?P<opt>z)?[a-z]+", "(a)|(b)|.+"];
@@ -662,8 +664,42 @@ fn case_stack(seed: u64) {
     }
 }
 
+/// many rules of few ranks matching one request, ids of mixed shapes (numeric, alphanumeric, padded, signed,
+/// non-ASCII digits): ordering and merging them must not panic, whatever order they are handed over in
+fn case_many_rules(rng: &mut Rng) {
+    let pool = [
+        "2", "10", "1a", "3", "20", "2b", "007", "7", "a1", "A1", "1e3", "0x10", "-1", "+5", " 9", "9 ", "\u{661}\u{662}", "18446744073709551616", "1.5", "", "a", "B", "10a", "01", "1", "11", "100", "z9",
+        "9z", "4", "5", "6", "8", "12", "13", "14", "15", "16", "17", "18", "19", "21", "22", "23", "2a", "3c", "4d", "5e", "6f", "30",
+    ];
+    let n = rng.range(21, 48);
+    let mut ids: Vec<&str> = pool.to_vec();
+    rng.shuffle(&mut ids);
+    let config = RouterConfig::default();
+    let mut router = Router::<Rule>::from_config(config.clone());
+    for id in ids.iter().take(n) {
+        let rule = json!({"id": id, "rank": rng.pick(&[0u16, 0, 0, 1, 65535]), "source": {"path": "/many"}, "status_code": rng.pick(&[301u16, 302, 410]), "target": format!("/t/{}", id.len()),
+            "header_filters": [{"action": "override", "header": "X-M", "value": id}]});
+        if let Ok(r) = serde_json::from_value::<Rule>(rule) {
+            router.insert(r);
+        }
+    }
+    let request = Request::from_config(&config, "/many".to_string(), None, None, None, None, None);
+    let mut routes = router.match_request(&request);
+    for _ in 0..3 {
+        let mut action = Action::from_routes_rule(routes.clone(), &request, None);
+        drive_action(&mut action, rng);
+        rng.shuffle(&mut routes);
+    }
+    let _ = router.get_route(&request);
+    let _ = serde_json::to_string(&router.get_trace(&request));
+}
+
 fn case_misc(seed: u64) {
     let mut rng = Rng::new(seed);
+    if rng.chance(1, 10) {
+        case_many_rules(&mut rng);
+        return;
+    }
     let bytes = hostile_bytes(&mut rng);
     let b = Buffer::from_vec(bytes.clone());
     let _ = b.to_vec();
